@@ -62,6 +62,52 @@ theorem option_basename_kept (inputFile directory : String) (o : Options) (h : o
   simp [canonicalBaseFilename, hb]
 
 
+/-! ### the executable pipeline spec holds of the model -/
+
+theorem pipeline_meets_spec' (p : PipeIn) (wf : p.prep.WF = true) : specPipeline p (runPipeline p) = true := by
+  unfold specPipeline
+  cases ha : specAccepts p.prep with
+  | false => simp [pipeline_refused p wf ha, refusedUntouched]
+  | true =>
+    cases hf : p.results.hasFault with
+    | true =>
+      obtain ⟨e, he⟩ := pipeline_fault p wf ha hf
+      obtain ⟨_, _, hw⟩ := writeToFile_fault p.results (.path p.jsonName) (preparedDir p.prep) hf
+      have hall := pipeline_prefix_events p wf ha _ hw
+      rw [he]
+      have hA : Ev.annotated ∉ (prepareOutputDir p.prep).trace ++ Ev.prepared ::
+          (writeToFile p.results (.path p.jsonName) (preparedDir p.prep)).trace := fun h => (hall _ h).1 rfl
+      have hO : Ev.outputsWritten ∉ (prepareOutputDir p.prep).trace ++ Ev.prepared ::
+          (writeToFile p.results (.path p.jsonName) (preparedDir p.prep)).trace := fun h => (hall _ h).2.1 rfl
+      have hW : ((prepareOutputDir p.prep).trace ++ Ev.prepared ::
+          (writeToFile p.results (.path p.jsonName) (preparedDir p.prep)).trace).any
+            (fun e => e == Ev.openW p.jsonName || e == Ev.write p.jsonName) = false := by
+        rw [List.any_eq_false]
+        intro x hx
+        have := hall x hx
+        simp [this.2.2.1 p.jsonName, this.2.2.2 p.jsonName]
+      simp [hA, hO, hW]
+    | false =>
+      rw [pipeline_clean p wf ha hf]
+      have hall := pipeline_prefix_events p wf ha _
+        (fun ev hev => Or.inl (convertRecords_trace 0 p.results.records p.results.results ev hev))
+      have hq : ∀ ev ∈ (prepareOutputDir p.prep).trace ++ Ev.prepared ::
+          (convertRecords 0 p.results.records p.results.results).trace,
+          (fun e : Ev => e != Ev.openW p.jsonName) ev = true := by
+        intro ev hev
+        simpa using (hall ev hev).2.2.1 p.jsonName
+      have hassoc : (prepareOutputDir p.prep).trace ++
+            Ev.prepared :: (convertRecords 0 p.results.records p.results.results).trace ++
+            [Ev.openW p.jsonName, Ev.write p.jsonName, Ev.annotated, Ev.outputsWritten] =
+          ((prepareOutputDir p.prep).trace ++
+            Ev.prepared :: (convertRecords 0 p.results.records p.results.results).trace) ++
+            [Ev.openW p.jsonName, Ev.write p.jsonName, Ev.annotated, Ev.outputsWritten] := by
+        simp
+      rw [hassoc]
+      simp only [Bool.not_true, Bool.false_eq_true, if_false, Option.isNone_none, decide_true, Bool.true_and]
+      rw [dropWhile_prefix _ _ _ hq]
+      simp
+
 /-! ### reloaded results -/
 
 theorem jsonShape_faulty_or_none : ∀ v : PyVal, jsonShape v = .none ∨ (jsonShape v).faulty = true
